@@ -23,11 +23,11 @@ EXPLANATION = ("E1: bounded symbolic execution (CrossHair/z3) of cancel_event / 
                "fresh look at its flag, nobody crashes; the check-then-post window is the recorded known finding (replayed on the real code).")
 RULE = "one case per (number of sources, their names, which one, by id or name, same object or equal copy); non-trivial = at least two sources"
 LIM = {"quick": dict(NS=3), "thorough": dict(NS=4)}
-NAMES = ["W_ALPHA", "W_BETA"]
+NAMES = ["W_ALPHA", "W_ALPHA1"]      # distinct names, one contained in the other (as Pulse / Pulse1 in the examples)
 
 
 def bounds(tier):
-  d = dict(LIM[tier]); d["meaning"] = "NS = max tracked sources; names mask bit i = source i uses W_BETA; by 0 id/1 name; copy 0 identical object/1 equal copy; absent = cancel something not tracked"
+  d = dict(LIM[tier]); d["meaning"] = "NS = max tracked sources; names mask bit i = source i uses W_ALPHA1; by 0 id/1 name; copy 0 identical object/1 equal copy; absent = cancel something not tracked"
   return d
 
 
